@@ -47,7 +47,7 @@ def run_for (prop, repo_root):
   jobs = []
   for d in sorted(glob.glob(os.path.join(V, 'seeded', prop + '_*'))):
     p = os.path.join(d, 'patch.diff')
-    if os.path.exists(p): jobs.append((prop, repo_root, 'seed', os.path.basename(d), p))
+    if os.path.exists(p) and os.path.isdir(d): jobs.append((prop, repo_root, 'seed', os.path.basename(d), p))
   for p in sorted(glob.glob(os.path.join(V, 'selftest', 'mutants', prop + '_*.diff'))):
     jobs.append((prop, repo_root, 'seed', os.path.basename(p)[:-5], p))
   for p in sorted(glob.glob(os.path.join(V, 'selftest', 'benign', prop + '_*.diff'))):
